@@ -14,9 +14,13 @@ CONTRACT = ("table satisfies the generator contract: sorted by (from, terminal),
             "accepting states have no successors, prod0 valid iff no transitions; terminals are EOI or user tokens (>= 5)")
 STREAM = "lookahead tokens: skip-token types 1..=4 never occur; EOI only as trailing padding"
 
-HARNESSES = [
+TABLE_GRAMMARS = {"anbn": "ll_anbn", "k2": "ll_k2", "k3": "ll_k3", "unite": "ll_unite_order", "nullable": "ll_nullable_tail", "expr": "ll_expr",
+                  "leftfactor": "ll_leftfactor", "k3_nt": "ll_k3_nt", "list_k2": "ll_list_k2"}
+TAB_HARNESSES = [H(M + "c08_tab_" + k, "every lookahead automaton that the freshly built parol generates for grammars/%s.par (concrete table), 4 symbolic tokens (EOI or 5..=16)" % g,
+                   F, stubs=STUBS, assumes=[STREAM], timeout=1800) for k, g in TABLE_GRAMMARS.items()]
+SYM_HARNESSES = [
     H(M + "c08_eval_symbolic_table", "symbolic table: <= 6 transitions, <= 5 states, automaton k <= 3, stream k <= 3, 4 symbolic u16 tokens",
-      F, stubs=STUBS, assumes=[CONTRACT, STREAM], timeout=2400),
+      F, stubs=STUBS, assumes=[CONTRACT, STREAM], timeout=3600),
     H(M + "c08_twin_must_fail", "vacuity twin", F, expect="fail", stubs=STUBS),
 ]
 
@@ -92,10 +96,41 @@ def native_eval(case):
     return res, " ".join(str(a) for a in args)
 
 
+def decode_tables(vecs):
+    """c08_tab_*: one [u16; 4] per automaton, in order; the failing automaton is not named by the
+    values, so every (automaton, tokens) pair is replayed natively."""
+    out = []
+    for v in vecs:
+        b = v["bytes"]
+        if len(b) == 8:
+            out.append([_le(b[i:i + 2]) for i in range(0, 8, 2)])
+    return out
+
+
 def replayer(h, hr, target_dir, package):
-    src, vecs, out = kani.concrete_values(CRATE, h.name, target_dir)
+    src, vecs = kani.values_from_text(hr.raw or "")
+    out = hr.raw or ""
+    if not vecs:
+        src, vecs, out = kani.concrete_values(CRATE, h.name, target_dir)
     if not vecs:
         return None, {"error": "no concrete values", "tail": out[-1500:]}
+    if "c08_tab_" in h.name:
+        from engine_g.rs_tables import RsTables
+        from lib import coretables
+        g = TABLE_GRAMMARS[h.name.split("c08_tab_")[1]]
+        import glob
+        las = decode_tables(vecs)
+        arts = [a for a in glob.glob(os.path.join(BUILD, "gen-cache", "*", g + "_*_p", "parser.rs"))]
+        T = RsTables(sorted(arts, key=os.path.getmtime)[-1])
+        for (nt, a), la in zip(T.automata.items(), las):
+            case = {"n": len(a["trans"]), "k": a["k"], "trans": [list(t) for t in a["trans"]], "prod0": a["prod0"], "la": la, "stream_k": max(1, T.max_k or 1)}
+            exp = reference(case["prod0"], case["trans"], case["k"], la[:case["stream_k"]] + [0] * 4)
+            got, argline = native_eval(case)
+            if got is None:
+                continue
+            if (got == "Err" and exp is not None) or (got != "Err" and got != exp):
+                return True, {"harness": h.name, "values": vecs, "case": case, "non_terminal": nt, "expected": exp, "native_result": got, "native_args": argline}
+        return False, {"harness": h.name, "values": vecs, "note": "no automaton/token pair reproduced natively"}
     try:
         case = decode_symbolic_table(vecs)
     except Exception as e:
@@ -111,8 +146,18 @@ def replayer(h, hr, target_dir, package):
 
 
 def main():
-    run = run_property("C08", "model_checking", HARNESSES, CRATE, TARGET, replayer, jobs=2)
-    run.assume("bounded claim: automata with <= 6 transitions / <= 5 states / k <= 3; larger automata are outside the claim",
+    from lib import coretables
+    info = coretables.ensure()
+    # phase A: generated tables, in parallel; phase B: symbolic table, sequential with playback
+    run = run_property("C08", "model_checking", TAB_HARNESSES, CRATE, TARGET, replayer, jobs=9)
+    cov_a = dict(run.cov)
+    run = run_property("C08", "model_checking", SYM_HARNESSES, CRATE, TARGET, replayer, jobs=1, playback=True, run=run)
+    run.cov["harnesses"] = cov_a["harnesses"] + run.cov["harnesses"]
+    for k in ("evaluations", "distinct_nontrivial", "queries_discharged", "solver_time_s", "kani_wall_s"):
+        run.cov[k] = round(cov_a[k] + run.cov[k], 2) if isinstance(run.cov[k], float) or isinstance(cov_a[k], float) else cov_a[k] + run.cov[k]
+    run.cov["samples"] = (cov_a["samples"] + run.cov["samples"])[:8]
+    run.cov["generated_tables"] = info
+    run.assume("bounded claim: (a) every automaton generated for the 9 committed corpus grammars, all buffers of 4 tokens; (b) every automaton with <= 6 transitions / <= 5 states / k <= 3 that satisfies the generator contract; larger automata are outside the claim",
                "counterexamples are replayed natively: real LookaheadDFA::eval on a real TokenStream with a scnr2 scanner (/verif/replay/eval_replay)")
     return run.finish()
 
